@@ -25,6 +25,7 @@ type Env struct {
 	depth  int
 	bound  map[string]bool // quantifier-bound names
 	inOld  bool            // evaluating inside old(...)
+	tsubst map[string]types.Type // type parameters of the callee bound to the type arguments of a call (contracts of generic functions)
 }
 
 func (e *Env) with(st *State) *Env {
@@ -116,6 +117,11 @@ func (env *Env) resolveType(t TypeExpr) types.Type {
 		name = name[:i]
 	}
 	var base types.Type
+	if t.Pkg == "" && targs == "" {
+		if ty, ok := env.tsubst[name]; ok {
+			return ty
+		}
+	}
 	if t.Pkg == "" && env.fr != nil && env.fr.fn != nil {
 		// type parameters of the function under analysis (or of its receiver type)
 		fn := env.fr.fn
@@ -162,6 +168,9 @@ func (env *Env) resolveType(t TypeExpr) types.Type {
 		}
 	} else {
 		base = env.c.P.lookupType(t.Pkg, name)
+		if base == nil && t.Pkg == "unsafe" && name == "Pointer" {
+			return types.Typ[types.UnsafePointer]
+		}
 		if base == nil && t.Pkg == "reflect" {
 			for _, p := range env.c.P.Pkgs {
 				if ip, ok := p.Imports["reflect"]; ok {
@@ -389,6 +398,22 @@ func (env *Env) frameVar(name string) (Val, bool) {
 			}
 		}
 	}
+	// a local that lives in memory (address taken): the name denotes its current content
+	for _, b := range fr.fn.Blocks {
+		for _, ins := range b.Instrs {
+			a, ok := ins.(*ssa.Alloc)
+			if !ok || a.Comment != name {
+				continue
+			}
+			if _, def := fr.vals[a]; !def {
+				continue
+			}
+			if env.header != nil && !b.Dominates(env.header) {
+				continue
+			}
+			return env.c.deref(nil, env.cur, env.c.val(fr, a), a.Type()), true
+		}
+	}
 	// DebugRef lookup: latest defined value carrying this source name
 	var best ssa.Value
 	var bestAddr bool
@@ -409,6 +434,9 @@ func (env *Env) frameVar(name string) (Val, bool) {
 			}
 			if env.header != nil && !b.Dominates(env.header) {
 				continue
+			}
+			if bestAddr && !d.IsAddr {
+				continue // the variable lives in memory: its current content is what the name denotes
 			}
 			best, bestAddr = d.X, d.IsAddr
 		}
@@ -1043,6 +1071,19 @@ func (env *Env) callExpr(x *ECall) Val {
 	case "ref":
 		v := env.eval(x.Args[0])
 		return refVal(refTerm(v))
+	case "typeid": // typeid(T): the engine's tag of type T (distinct types have distinct tags)
+		id, ok := x.Args[0].(*EIdent)
+		if !ok {
+			sfail("typeid(T) needs a type name")
+		}
+		t := env.resolveType(TypeExpr{Kind: "name", Name: id.Name})
+		return sc(bvInt(64, int64(c.typeTag(t))), types.Typ[types.Int])
+	case "asRef": // asRef(p): the typed pointer obtained by converting the unsafe.Pointer p (same function as the conversion in code)
+		v := env.eval(x.Args[0])
+		if v.K != VUPtr {
+			sfail("asRef needs an unsafe.Pointer")
+		}
+		return refVal(c.ufApp("uptr2ref", []string{v.F[0].T, v.F[1].T}, []string{"Int", sortIdx}, "Int"))
 	case "unchanged": // unchanged(e): value of e in the current state equals its value in the old state
 		a, b := env.eval(x.Args[0]), env.with(env.old).eval(x.Args[0])
 		return sc(env.eq(a, b), boolT)
@@ -1057,7 +1098,7 @@ func (env *Env) callExpr(x *ECall) Val {
 		if env.depth > 30 {
 			sfail("pred recursion too deep at %s", name)
 		}
-		sub := &Env{c: c, vars: map[string]Val{}, cur: env.cur, old: env.old, loopIn: env.loopIn, pkg: p.Pkg, depth: env.depth + 1}
+		sub := &Env{c: c, vars: map[string]Val{}, cur: env.cur, old: env.old, loopIn: env.loopIn, pkg: p.Pkg, depth: env.depth + 1, tsubst: env.tsubst, fr: env.fr}
 		for i, b := range p.Params {
 			pt := sub.resolveType(b.T)
 			v := env.eval(x.Args[i])
@@ -1219,8 +1260,21 @@ func (env *Env) quant(x *EQuant) Val {
 				ps = append(ps, t)
 			}
 		}
+		alts := ""
+		if len(x.Pats) == 1 {
+			// a composite-valued trigger (interface, slice header): every component is an alternative pattern
+			if call, ok := x.Pats[0].(*ECall); !ok || !isMapHas(call) {
+				if pv := e.eval(x.Pats[0]); pv.K != VScalar {
+					for _, t := range flat(pv) {
+						if okPattern(t) && (len(ps) == 0 || t != ps[0]) {
+							alts += " :pattern (" + t + ")"
+						}
+					}
+				}
+			}
+		}
 		if len(ps) > 0 {
-			body = "(! " + body + " :pattern (" + strings.Join(ps, " ") + "))"
+			body = "(! " + body + " :pattern (" + strings.Join(ps, " ") + ")" + alts + ")"
 		}
 	}
 	q := "exists"
@@ -1250,15 +1304,24 @@ func (env *Env) patternTerm(p Expr) string {
 		}
 		pv.T = ts[len(ts)-1]
 	}
-	for _, bad := range []string{"(and ", "(or ", "(not ", "(=> ", "(= ", "(ite ", "(bvult ", "(bvslt ", "(bvsle ", "(bvule "} {
-		if strings.HasPrefix(pv.T, bad) {
-			return ""
-		}
-	}
-	if !strings.HasPrefix(pv.T, "(") {
+	if !okPattern(pv.T) {
 		return ""
 	}
 	return pv.T
+}
+
+func isMapHas(call *ECall) bool {
+	id, ok := call.Fn.(*EIdent)
+	return ok && id.Name == "mapHas"
+}
+
+func okPattern(t string) bool {
+	for _, bad := range []string{"(and ", "(or ", "(not ", "(=> ", "(= ", "(ite ", "(bvult ", "(bvslt ", "(bvsle ", "(bvule "} {
+		if strings.HasPrefix(t, bad) {
+			return false
+		}
+	}
+	return strings.HasPrefix(t, "(") && strings.Contains(t, "q.")
 }
 
 // ---------- modifies targets ----------
@@ -1310,19 +1373,87 @@ func (c *Ctx) modTargets(env *Env, m Expr) []modTarget {
 			return out
 		}
 	case *ECall:
+		if id, ok := x.Fn.(*EIdent); ok && id.Name == "mapsOf" {
+			// mapsOf(Type.field): the contents of every map of the field's map type
+			sel, ok := x.Args[0].(*ESel)
+			if !ok {
+				sfail("mapsOf(Type.field)")
+			}
+			t := env.resolveType(TypeExpr{Kind: "name", Name: sel.X.(*EIdent).Name})
+			st := under(t).(*types.Struct)
+			for i := 0; i < st.NumFields(); i++ {
+				if st.Field(i).Name() == sel.Name {
+					m := c.mapInfo(st.Field(i).Type())
+					out = append(out, modTarget{heap: m.has, all: true}, modTarget{heap: m.ln, all: true})
+					for _, lf := range m.vleaves {
+						out = append(out, modTarget{heap: m.val + lf.suffix, all: true})
+					}
+					return out
+				}
+			}
+			sfail("mapsOf(): no field %s", sel.Name)
+		}
+		if id, ok := x.Fn.(*EIdent); ok && id.Name == "elems" {
+			// elems(T): every element of every []T backing store (whole element heap)
+			var et types.Type
+			switch a := x.Args[0].(type) {
+			case *EIdent:
+				et = env.resolveType(TypeExpr{Kind: "name", Name: a.Name})
+			case *EUn: // elems(*T)
+				id, ok := a.X.(*EIdent)
+				if a.Op != "*" || !ok {
+					sfail("elems(T) / elems(*T)")
+				}
+				et = types.NewPointer(env.resolveType(TypeExpr{Kind: "name", Name: id.Name}))
+			default:
+				sfail("elems(T)")
+			}
+			if classOf(et) == CStruct {
+				sfail("elems() of struct elements")
+			}
+			c.elemLoc(et, "0", bvInt(64, 0))
+			for _, lf := range leavesOf(et) {
+				out = append(out, modTarget{heap: elemHeap(et) + lf.suffix, all: true})
+			}
+			return out
+		}
 		if id, ok := x.Fn.(*EIdent); ok && id.Name == "all" {
 			// all(Type.field): the whole field heap
 			sel, ok := x.Args[0].(*ESel)
 			if !ok {
 				sfail("all(Type.field)")
 			}
-			tn := sel.X.(*EIdent).Name
+			tn := ""
+			switch tx := sel.X.(type) {
+			case *EIdent:
+				tn = tx.Name
+			case *EIndex: // generic instance: pointers[archetype].pointers
+				tn = tx.X.(*EIdent).Name + "[" + tx.I.(*EIdent).Name + "]"
+			default:
+				sfail("all(Type.field)")
+			}
 			t := env.resolveType(TypeExpr{Kind: "name", Name: tn})
 			s := under(t).(*types.Struct)
 			for i := 0; i < s.NumFields(); i++ {
 				if s.Field(i).Name() == sel.Name {
 					if classOf(s.Field(i).Type()) == CStruct {
-						sfail("all() of struct-typed field")
+						// a struct embedded by value: every leaf field heap of that struct type, whole
+						var walk func(st types.Type)
+						walk = func(st types.Type) {
+							ss := under(st).(*types.Struct)
+							for j := 0; j < ss.NumFields(); j++ {
+								if classOf(ss.Field(j).Type()) == CStruct {
+									walk(ss.Field(j).Type())
+									continue
+								}
+								l := c.fieldLoc(st, ss.Field(j), "0")
+								for _, lf := range leavesOf(ss.Field(j).Type()) {
+									out = append(out, modTarget{heap: l.heap + lf.suffix, all: true})
+								}
+							}
+						}
+						walk(s.Field(i).Type())
+						return out
 					}
 					l := c.fieldLoc(t, s.Field(i), "0")
 					for _, lf := range leavesOf(s.Field(i).Type()) {
